@@ -38,7 +38,7 @@ HAPS = {
     "S3": {"L1": [(0, 0, 0)], "L3": [(1, 0), (0, 1)]},
     "S0": {"L1": [], "L3": []},   # optional extra sample with no read at the loci that hold called SNVs (only at L5)
 }
-DEPTH = {"S1": 16, "S2": 12, "S3": 8, "S0": 6}
+DEPTH = {"S1": 36, "S2": 12, "S3": 8, "S0": 6}  # S1: 144 identical reads at L5 (counts beyond 127)
 
 
 def locus_snvs(name):
